@@ -199,9 +199,10 @@ structure DirV where
   memO : Mem
   cq : List CMsg
 
-def Sys.view (s : Sys) (p : Nat) : DirV :=
-  if p = 0 then ⟨0, s.p0, s.p1, s.net, s.mq0, s.mq1, s.mr0, s.mr1, s.m0, s.m1, s.cq0⟩
-  else ⟨1, s.p1, s.p0, s.net, s.mq1, s.mq0, s.mr1, s.mr0, s.m1, s.m0, s.cq1⟩
+/-- controller 0 requests, controller 1 owns -/
+def Sys.v0 (s : Sys) : DirV := ⟨0, s.p0, s.p1, s.net, s.mq0, s.mq1, s.mr0, s.mr1, s.m0, s.m1, s.cq0⟩
+/-- controller 1 requests, controller 0 owns -/
+def Sys.v1 (s : Sys) : DirV := ⟨1, s.p1, s.p0, s.net, s.mq1, s.mq0, s.mr1, s.mr0, s.m1, s.m0, s.cq1⟩
 
 /-- all chunk tokens of one direction -/
 def toks (v : DirV) : List Tok :=
